@@ -10,9 +10,11 @@
 (*   runSpace  \in {"none","ok"}  is a run_space block present             *)
 (*   planned   number of planned runs (1 without run space)                *)
 (*   failAt    0 or the 1-based index of the run that fails                *)
+(*   failKind  "error" (exception in a node, exit 4) or "interrupt"        *)
+(*             (KeyboardInterrupt, exit 5)                                 *)
 (*   traced    is a trace driver configured                                *)
 (* Exit codes (docs/source/cli.rst, EXIT_* constants):                     *)
-(*   1 usage, 2 missing file, 3 configuration, 4 runtime, 0 success        *)
+(*   1 usage, 2 missing file, 3 configuration, 4 runtime, 5 interrupt, 0 ok *)
 (***************************************************************************)
 EXTENDS Integers, Sequences, FiniteSets, TLC, Json
 
@@ -52,11 +54,12 @@ LE == <<"le", 0, "">>
 
 Scenarios ==
     {s \in [defect : Defects, validate : BOOLEAN, dryRun : BOOLEAN, rsDryRun : BOOLEAN,
-            runSpace : {"none", "ok"}, planned : 1..MaxRuns, failAt : 0..MaxRuns, traced : BOOLEAN] :
+            runSpace : {"none", "ok"}, planned : 1..MaxRuns, failAt : 0..MaxRuns, failKind : {"error", "interrupt"}, traced : BOOLEAN] :
         /\ (NeedsRunSpace(s.defect) => s.runSpace = "ok")
         /\ (s.runSpace = "none" => s.planned = 1 /\ ~s.rsDryRun)
         /\ s.failAt <= s.planned
-        /\ (s.defect # "none" => s.failAt = 0)}
+        /\ (s.defect # "none" => s.failAt = 0)
+        /\ (s.failAt = 0 => s.failKind = "error")}
 
 Init == sc \in Scenarios /\ gi = 1 /\ exit = -1 /\ started = 0 /\ completed = 0
         /\ launchOpen = FALSE /\ records = <<>>
@@ -86,7 +89,7 @@ RunOk == /\ exit = -1 /\ Gate = "runs" /\ started < sc.planned /\ started + 1 # 
          /\ records' = IF sc.traced THEN Append(records, <<"run", started + 1, "ok">>) ELSE records
          /\ UNCHANGED <<sc, gi, exit, launchOpen>>
 RunFails == /\ exit = -1 /\ Gate = "runs" /\ started < sc.planned /\ started + 1 = sc.failAt
-            /\ started' = started + 1 /\ exit' = 4
+            /\ started' = started + 1 /\ exit' = (IF sc.failKind = "interrupt" THEN 5 ELSE 4)
             /\ records' = IF sc.traced THEN Append(records, <<"run", started + 1, "error">>) ELSE records
             /\ UNCHANGED <<sc, gi, completed, launchOpen>>
 RunsDone == /\ exit = -1 /\ Gate = "runs" /\ started = sc.planned
@@ -119,10 +122,11 @@ ExitTable == Terminal =>
     IF Detected THEN exit = CodeOf(sc.defect) /\ started = 0
     ELSE IF EarlyIdx <= Len(GateOrder) THEN exit = 0 /\ started = 0
     ELSE /\ (exit = 0) <=> (completed = sc.planned)
-         /\ (exit = 4) <=> (sc.failAt # 0)
-         /\ exit \in {0, 4}
+         /\ (exit = 4) <=> (sc.failAt # 0 /\ sc.failKind = "error")
+         /\ (exit = 5) <=> (sc.failAt # 0 /\ sc.failKind = "interrupt")
+         /\ exit \in {0, 4, 5}
          /\ sc.failAt # 0 => started = sc.failAt /\ completed = sc.failAt - 1
-StopAfterFailure == [][exit = 4 => started' = started]_vars
+StopAfterFailure == [][(exit \in {4, 5}) => (started' = started)]_vars
 (***************************** properties (C09, launch level) *************)
 LaunchBracket == Terminal /\ sc.traced /\ sc.runSpace = "ok" /\ started > 0 =>
     /\ records[1] = LS /\ records[Len(records)] = LE
